@@ -509,9 +509,11 @@ theorem rem_op_track (r : Rem) (ok : Bool) (op : RemOp) :
   cases op with
   | start =>
     cases hs : r.started <;> cases ok <;> simp [Rem.op, remOut, track, hs]
-  | addRcpt d co mo =>
-    by_cases hc : d ∈ r.conns <;> cases hs : r.started <;> cases co <;> cases ok <;> cases mo <;>
-      simp [Rem.op, remOut, track, hs, hc]
+  | addRcpt d co mo rc =>
+    by_cases hc : d ∈ r.conns <;> cases hs : r.started <;> cases co <;> cases ok <;> cases mo <;> cases rc <;>
+      simp [Rem.op, Rem.rcpt, remOut, track, hs, hc]
+  | body =>
+    simp [Rem.op, track]
   | close =>
     cases hs : r.started
     · simp [Rem.op, remOut, track, hs]
@@ -520,8 +522,9 @@ theorem rem_op_track (r : Rem) (ok : Bool) (op : RemOp) :
       simp [track]
 
 /-- **Remote delivery.**  For every sequence of `Start` / `AddRcpt` (connection reused, connection failure,
-`TakeDest` time-out, MAIL FROM refused by the next hop, accepted) / `Commit`/`Abort`, every release is for a
-permit the delivery took under the same key and still holds. -/
+`TakeDest` time-out, MAIL FROM refused by the next hop or the connection lost at MAIL, RCPT accepted / refused /
+failed with the connection lost — 421, drop, time-out — on a fresh or a reused connection) / `Body` /
+`Commit`/`Abort`, every release is for a permit the delivery took under the same key and still holds. -/
 theorem C11_remote_disciplined (script : List (RemOp × Bool)) (r : Rem) :
     ∃ r', Rem.run r (remOut r) script = some (r', remOut r') := by
   induction script generalizing r with
@@ -532,7 +535,8 @@ theorem C11_remote_disciplined (script : List (RemOp × Bool)) (r : Rem) :
     obtain ⟨r', h3⟩ := ih (r.op ok op).1
     exact ⟨r', by simp [Rem.run, h1, h3]⟩
 
-/-- After `Commit`/`Abort` (`Close`) the delivery holds nothing, whatever happened before. -/
+/-- After `Commit`/`Abort` (`Close`) the delivery holds nothing, whatever happened before — in particular
+whatever the next hop did with any RCPT (first or later one of a connection) or with DATA. -/
 theorem C11_remote_returns_all (script : List (RemOp × Bool)) (r : Rem) (ok : Bool) :
     ∃ r', Rem.run r (remOut r) (script ++ [(RemOp.close, ok)]) = some (r', {}) := by
   induction script generalizing r with
@@ -633,6 +637,21 @@ example : (Rem.run { ip := 1, dom := 7 } {}
     (Rem.run { ip := 1, dom := 7 } {}
       [(.start, true), (.addRcpt 2 true true, true), (.addRcpt 3 true false, true), (.addRcpt 4 true true, false),
        (.close, true)]).map (·.2) = some {} := by
+  decide
+
+/-- A remote delivery whose next hop answers the FIRST RCPT of a fresh connection with 421 / drops it: the
+delivery keeps holding the destination permit (the entry stays in `rd.connections`); a further recipient of
+the domain reuses the dead connection (lost again, no second permit), another domain is accepted, its second
+RCPT is lost; `Body`; `Close` returns everything. -/
+example : (Rem.run { ip := 1, dom := 7 } {}
+      [(.start, true), (.addRcpt 2 true true .lost, true), (.addRcpt 2 true true .lost, true),
+       (.addRcpt 3 true true, true), (.addRcpt 3 true true .lost, true), (.addRcpt 2 true true .refused, true),
+       (.body, true)]).map (·.2)
+      = some { msg := [(1, 7)], dest := [3, 2] } ∧
+    (Rem.run { ip := 1, dom := 7 } {}
+      [(.start, true), (.addRcpt 2 true true .lost, true), (.addRcpt 2 true true .lost, true),
+       (.addRcpt 3 true true, true), (.addRcpt 3 true true .lost, true), (.addRcpt 2 true true .refused, true),
+       (.body, true), (.close, true)]).map (·.2) = some {} := by
   decide
 
 end MaddyVerif.Limits
